@@ -4,7 +4,7 @@ import numpy as np
 from fractions import Fraction
 import symtorch
 from vlib import core, adjcheck
-from harness import dtlib as DT
+from harness import dtlib as DT, dwtlib as D
 
 META = {
     'functions': ['pytorch_wavelets.dtcwt.transform_funcs.FWD_J1.forward', 'pytorch_wavelets.dtcwt.transform_funcs.FWD_J1.backward',
@@ -56,6 +56,12 @@ def configs(tier, seed):
                     out.append(dict(dir='inv', biort=b, qshift=q, J=J, H=6, W=8, sub=list(s)))
         out.append(dict(dir='inv', biort=b, qshift=q, J=2, H=5, W=7, sub=[1, 1, 1]))
         out.append(dict(dir='inv', biort=b, qshift=q, J=3, H=8, W=8, sub=[1, 0, 1, 1]))
+    # the same module is called on other data before the backward pass / the graph is back-propagated twice
+    for extra in (dict(reuse=True), dict(twice=True), dict(reuse=True, twice=True)):
+        out.append(dict(dir='fwd', biort='near_sym_a', qshift='qshift_a', J=2, H=6, W=8, **extra))
+        out.append(dict(dir='fwd', biort='near_sym_b', qshift='qshift_b', J=3, H=8, W=8, **extra))
+        out.append(dict(dir='inv', biort='near_sym_a', qshift='qshift_a', J=2, H=6, W=8, sub=[1, 1, 1], **extra))
+        out.append(dict(dir='fwd', biort='near_sym_a', qshift='qshift_a', J=2, H=6, W=6, skip=[False, True], inc=[True, False], **extra))
     out.append(dict(dir='inv', biort='near_sym_a', qshift='qshift_a', J=2, H=8, W=8, sub=[1, 0, 1], none=[1, 0]))
     out.append(dict(dir='inv', biort='near_sym_a', qshift='qshift_a', J=2, H=8, W=8, sub=[1, 1, 0], none=[0, 1]))
     return out
@@ -72,7 +78,12 @@ def _case(cfg):
             fkw.update(skip_hps=list(cfg['skip']), include_scale=list(cfg['inc']))
 
         def run(pw, leaves):
-            yl, yh = pw.DTCWTForward(J=cfg['J'], **fkw)(leaves[0])
+            m = pw.DTCWTForward(J=cfg['J'], **fkw)
+            yl, yh = m(leaves[0])
+            if cfg.get('reuse'):
+                # the same module transforms another image (other size) before the first result is back-propagated
+                tt = D.torch_of(pw)
+                m(tt.ones(1, 2, cfg['H'] + 4, cfg['W'] + 2, dtype=leaves[0].dtype).requires_grad_(True))
             return (list(yl) if isinstance(yl, (list, tuple)) else [yl]) + list(yh)
         return shapes, run
     sl, sh = DT.pyramid_shapes(cfg['biort'], cfg['qshift'], cfg['J'], cfg['H'], cfg['W'])
@@ -84,7 +95,15 @@ def _case(cfg):
         shapes = [shapes[0]] + [mv(s) for s in shapes[1:]]
 
     def run(pw, leaves):
-        return [pw.DTCWTInverse(**kw)((leaves[0], list(leaves[1:])))]
+        m = pw.DTCWTInverse(**kw)
+        y = m((leaves[0], list(leaves[1:])))
+        if cfg.get('reuse'):
+            tt = D.torch_of(pw)
+            sl2, sh2 = DT.pyramid_shapes(cfg['biort'], cfg['qshift'], cfg['J'], cfg['H'] + 4, cfg['W'] + 8)
+            p2 = [tt.ones(*((1, 2) + tuple(s_)), dtype=leaves[0].dtype).requires_grad_(True) for s_ in [sl2] + list(sh2)]
+            if 'o' not in cfg:
+                m((p2[0], p2[1:]))
+        return [y]
     return shapes, run
 
 
